@@ -112,7 +112,7 @@ def instant(d):
     off = d.utcoffset() or datetime.timedelta(0)
     naive = d.replace(tzinfo=None)
     delta = naive - datetime.datetime(1, 1, 1)
-    return (delta.days * 86400 + delta.seconds) * 10**6 + delta.microseconds - int(off.total_seconds()) * 10**6
+    return (delta.days * 86400 + delta.seconds) * 10**6 + delta.microseconds - ((off.days * 86400 + off.seconds) * 10**6 + off.microseconds)
 def same_content(a, b):
     """same type, same content (text up to leading/trailing whitespace; DateTimes as instants; nulls as nulls)"""
     from opcua_tools import ua_data_types as T
@@ -305,6 +305,13 @@ def check(ctx):
             ctx.record(["value", canon_sx(sx), xmlns], nontriv, feats + ["xmlns" if xmlns else "no-xmlns", "tz=" + tzs[i % 3]])
             for sig, detail in fails: ctx.fail(sig, dict(kind="value", value=canon_sx(sx), xmlns=xmlns), detail)
     os.environ["TZ"] = "UTC"; time.tzset()
+    # byte strings of a megabyte and more (a firmware image, a type dictionary), alone and in a list: the implementation's own encode -> decode, oracle only
+    for expr in BIG_BYTES:
+        v = eval(expr, {"T": T, "big_bytes": big_bytes})
+        for xmlns in (True, False):
+            enc, out, fails = judge_value(v, xmlns)
+            ctx.record(["value", expr, xmlns], True, ["ByteString", "megabyte"])
+            for sig, detail in fails: ctx.fail(sig, dict(kind="py", expr=expr, xmlns=xmlns), detail[:300])
     frags = [f % TYPES_NS for f in FRAGMENTS] + FRAG_NO_NS
     for f in frags:
         out, dv = impl_decode(f, False)
@@ -348,9 +355,15 @@ def check(ctx):
     pick = [i for i in pick if len(vlib.to_sx(reqs[i])) < 3000]
     ctx.crosscheck = vlib.coq_crosscheck([reqs[i] for i in pick], [ans[i] for i in pick], "c08")
 
+def big_bytes(n, seed=7):
+    import random
+    return random.Random(seed).randbytes(n)
+BIG_BYTES = ["T.UAByteString(big_bytes(2**20 + 1))", "T.UAByteString(bytearray(big_bytes(3 * 2**20 + 5, 8)))", "T.UAByteString(big_bytes(2**20))",
+             "T.UAListOf((T.UAByteString(b'ab'), T.UAByteString(big_bytes(2**21 + 2, 9))), 'ByteString')"]
+
 def oracle_case(case):
     from opcua_tools import ua_data_types as T
     if case.get("kind") == "py":
-        v = eval(case["expr"], {"T": T, "pd": pd, "datetime": datetime, "float": float})
+        v = eval(case["expr"], {"T": T, "pd": pd, "datetime": datetime, "float": float, "big_bytes": big_bytes})
         return judge_value(v, case.get("xmlns", True))[2]
     return []
